@@ -1354,10 +1354,11 @@ const FC_SUITES: [SuiteId; 6] = [
     SuiteId { kem: Kem::P384, kdf: Kdf::Sha384, aead: Aead::Aes256Gcm },
     SuiteId { kem: Kem::P521, kdf: Kdf::Sha512, aead: Aead::ChaCha20Poly1305 },
 ];
-const FC_KINDS: [&str; 13] = [
+const FC_KINDS: [&str; 14] = [
     "derive_keypair", "gen_keypair", "sk_to_pk", "setup_sender(Base)+seal+export", "setup_receiver(Base)+open+export", "setup_sender(AuthPsk)+seal+export",
     "setup_receiver(AuthPsk)+open+export", "single_shot_seal(Psk)", "single_shot_open(Auth)", "decap",
     "FAILING setup_receiver(Auth: bad sender key / tampered single-shot open)", "FAILING setup_sender(bad recipient key) / key deserialization", "FAILING open (tampered), then the genuine message",
+    "setup_sender(Base)+export of the maximum length 255*Nh, then one byte more",
 ];
 
 fn fc_name(o: usize) -> String {
@@ -1442,6 +1443,22 @@ fn fc_run(o: usize, seed: u64) -> Result<(), String> {
             let (sk_e, _, _) = suite.kem.derive_keypair(&k.ikm_e);
             let (ss, enc) = suite.kem.encap(&k.pk_r, None, &sk_e).ok_or("R1 encap failed")?;
             cmp("shared secret", kem.decap(&k.sk_r, None, &enc), &ss)
+        }
+        13 => {
+            let m = mode_spec(Mode::Base, &k, b"", b"");
+            let (enc, rs) = r1_setup_s(suite, &m, &k.pk_r, &info, &k.ikm_e).ok_or("R1 setup failed")?;
+            let max = 255 * suite.kdf.nh();
+            match ops.setup_sender(&m, &k.pk_r, &info, &mut ScriptRng::new(&k.ikm_e)) {
+                Obs::Ok((e, s)) => {
+                    cmp("enc", Obs::Ok(e), &enc)?;
+                    cmp("export of 255*Nh bytes", s.export(b"max", max), &rs.export(b"max", max).map_err(|_| "R1 export failed")?)?;
+                    match s.export(b"max", max + 1) {
+                        Obs::Err(hpke::HpkeError::KdfOutputTooLong) => Ok(()),
+                        o => Err(format!("export of 255*Nh+1 bytes: {} want Err(KdfOutputTooLong)", o.map(|_| ()).class())),
+                    }
+                }
+                o => Err(format!("setup_sender: {}", o.map(|_| ()).class())),
+            }
         }
         // operations that must FAIL - an error path may leave something behind for the next call
         10 => {
